@@ -132,3 +132,228 @@ package kcp
 //@   loop 2 invariant forall k int :: 0 <= k && k < cb_n ==> cb_ref(k) == ref(r.elements) && cb_idx(k) == off(r.elements) + r.tail - 1 - k && cb_ret(k)
 //@   loop 3 invariant r.head - 1 <= i && i <= len(r.elements) - 1 && cb_n == r.tail + len(r.elements) - 1 - i
 //@   loop 3 invariant forall k int :: 0 <= k && k < cb_n ==> cb_ref(k) == ref(r.elements) && cb_idx(k) == off(r.elements) + r.slot(r.rlen() - 1 - k) && cb_ret(k)
+
+// ===================================================================================
+// Globals, buffer pool
+// ===================================================================================
+//
+//@ axiom DefaultSnmp != nil && defaultBufferPool != nil
+//
+//@ func bufferPool.Get
+//@   ensures len(result) == 1500 && cap(result) == 1500 && fresh(result) && off(result) == 0
+//@ func bufferPool.Put
+//@   modifies nothing
+
+// ===================================================================================
+// kcp.go — shared representation invariant of the protocol core
+// ===================================================================================
+//
+//@ spec itimediff(later int, earlier int) int = int32(later - earlier)
+//
+//@ func _itimediff pure
+//@   ensures result == itimediff(later, earlier)
+//
+// INV-R: the three rings are distinct, well-formed FIFO queues with distinct backing arrays;
+// the reorder heap and its marks exist.
+//@ pred (kcp *KCP) wfR() = kcp.snd_queue != nil && kcp.snd_buf != nil && kcp.rcv_queue != nil
+//@      && kcp.snd_queue != kcp.snd_buf && kcp.snd_queue != kcp.rcv_queue && kcp.snd_buf != kcp.rcv_queue
+//@      && kcp.snd_queue.inv() && kcp.snd_buf.inv() && kcp.rcv_queue.inv()
+//@      && ref(kcp.snd_queue.elements) != ref(kcp.snd_buf.elements)
+//@      && ref(kcp.snd_queue.elements) != ref(kcp.rcv_queue.elements)
+//@      && ref(kcp.snd_buf.elements) != ref(kcp.rcv_queue.elements)
+//@      && kcp.rcv_buf != nil && kcp.rcv_buf.marks != nil
+//@      && ref(kcp.rcv_buf.segments) != ref(kcp.snd_queue.elements) && ref(kcp.rcv_buf.segments) != ref(kcp.snd_buf.elements)
+//@      && ref(kcp.rcv_buf.segments) != ref(kcp.rcv_queue.elements)
+//
+// Frame helpers for loops: a backing array is either the one the function started with or one
+// allocated since.
+//@ pred (r *RingBuffer) sameOrFresh() = ref(r.elements) == old(ref(r.elements)) || fresh(r.elements)
+//@ pred (h *segmentHeap) sameOrFresh() = (ref(h.segments) == old(ref(h.segments)) || fresh(h.segments)) && h.marks == old(h.marks)
+//
+// INV-M: MTU/MSS/staging buffer.
+//@ pred (kcp *KCP) wfM() = 24 < kcp.mtu && kcp.mss == kcp.mtu - 24 && kcp.mss <= 1500 && len(kcp.buffer) >= kcp.mtu
+//@      && kcp.output != nil
+//
+// INV-T: timers.
+//@ pred (kcp *KCP) wfT() = (kcp.rx_minrto == 30 || kcp.rx_minrto == 100) && kcp.rx_minrto <= kcp.rx_rto && kcp.rx_rto <= 60000
+//@      && 10 <= kcp.interval && kcp.interval <= 5000 && kcp.probe_wait <= 120000
+//
+//@ func segment.encode
+//@   requires len(ptr) >= 24
+//@   modifies ptr[..], DefaultSnmp.OutSegs
+//@   ensures result == ptr[24:]
+//@   ensures le32(ptr, 0) == seg.conv && ptr[4] == seg.cmd && ptr[5] == seg.frg && le16(ptr, 6) == seg.wnd
+//@   ensures le32(ptr, 8) == seg.ts && le32(ptr, 12) == seg.sn && le32(ptr, 16) == seg.una
+//@   ensures le32(ptr, 20) == uint32(len(seg.data))
+//@   ensures forall j int :: j < 0 || j >= 24 ==> ptr[j] == old(ptr[j])
+//
+//@ func KCP.newSegment inline
+//@ func KCP.recycleSegment inline
+//
+//@ func KCP.shrink_buf
+//@   requires kcp.wfR()
+//@   modifies kcp.snd_una
+//@   ensures kcp.snd_buf.rlen() > 0 ==> kcp.snd_una == kcp.snd_buf.at(0).sn
+//@   ensures kcp.snd_buf.rlen() == 0 ==> kcp.snd_una == kcp.snd_nxt
+//
+//@ func KCP.wnd_unused pure
+//@   requires kcp.wfR()
+//@   ensures @C04 result <= max(0, kcp.rcv_wnd - kcp.rcv_queue.rlen())
+//@   ensures kcp.rcv_queue.rlen() < kcp.rcv_wnd ==> result == uint16(kcp.rcv_wnd - kcp.rcv_queue.rlen())
+//@   ensures kcp.rcv_queue.rlen() >= kcp.rcv_wnd ==> result == 0
+//
+//@ func KCP.WaitSnd pure
+//@   requires kcp.wfR()
+//@   ensures result == kcp.snd_buf.rlen() + kcp.snd_queue.rlen()
+//
+//@ func KCP.update_ack
+//@   requires kcp.wfT()
+//@   modifies kcp.rx_srtt, kcp.rx_rttvar, kcp.rx_rto
+//@   ensures @C18 kcp.wfT()
+//
+//@ func KCP.NoDelay
+//@   requires kcp.wfT()
+//@   modifies kcp.nodelay, kcp.rx_minrto, kcp.interval, kcp.fastresend, kcp.nocwnd
+//@   ensures @C18 kcp.wfT()
+//@   ensures result == 0
+//
+// INV-S: send side. Queued segments own a 1500-byte pool buffer holding at most mss bytes;
+// an acknowledged segment has given its buffer back. snd_buf holds the consecutive sequence
+// numbers snd_una .. snd_nxt-1, never more than the send window.
+//@ pred segq(s segment, mss int) = cap(s.data) == 1500 && len(s.data) <= mss
+//@ pred segb(s segment, mss int) = (s.acked == 1 && s.data == nil) || (cap(s.data) == 1500 && len(s.data) <= mss)
+//@ pred (kcp *KCP) wfSq() = forall i int :: 0 <= i && i < kcp.snd_queue.rlen() ==> segq(kcp.snd_queue.at(i), kcp.mss)
+//@ pred (kcp *KCP) wfSb() = forall i int :: 0 <= i && i < kcp.snd_buf.rlen() ==> segb(kcp.snd_buf.at(i), kcp.mss)
+//@ pred (kcp *KCP) wfSn() = (forall i int :: 0 <= i && i < kcp.snd_buf.rlen() ==> kcp.snd_buf.at(i).sn == uint32(kcp.snd_una + i))
+//@      && kcp.snd_nxt == uint32(kcp.snd_una + kcp.snd_buf.rlen())
+//@ pred (kcp *KCP) wfW() = 0 < kcp.snd_wnd && kcp.snd_wnd < 2147483648 && 0 < kcp.rcv_wnd && kcp.rcv_wnd < 2147483648
+//@      && kcp.snd_buf.rlen() <= kcp.snd_wnd && kcp.rcv_queue.rlen() <= kcp.rcv_wnd
+//@ pred (kcp *KCP) wfS() = kcp.wfSq() && kcp.wfSb() && kcp.wfSn()
+//
+// INV-A: pending acknowledgements (Input flushes the list before it reaches mtu/24 entries at
+// a method boundary; inside one Input call it can be longer).
+//@ pred (kcp *KCP) wf() = kcp.wfR() && kcp.wfM() && kcp.wfT() && kcp.wfS() && kcp.wfW()
+//
+//@ func NewKCP
+//@   requires output != nil
+//@   ensures result != nil && fresh(result) && result.wf()
+//@   ensures result.snd_queue.rlen() == 0 && result.snd_buf.rlen() == 0 && result.rcv_queue.rlen() == 0
+//@   ensures result.conv == conv && result.mtu == 1400 && result.snd_wnd == 32 && result.rcv_wnd == 32
+//
+//@ func newSegmentHeap
+//@   ensures result != nil && fresh(result) && result.marks != nil && fresh(result.marks) && result.segments == nil
+//@   ensures len(result.marks) == 0 && forall s uint32 :: !in(result.marks, s)
+//
+//@ func KCP.SetMtu
+//@   requires kcp.wf()
+//@   modifies kcp.mtu, kcp.mss, kcp.buffer
+//@   ensures @C10 [accepted-mtu-keeps-invariant] result == 0 ==> kcp.wf()
+//@   ensures @C10 [refused-mtu-changes-nothing] result != 0 ==> kcp.mtu == old(kcp.mtu) && kcp.mss == old(kcp.mss) && kcp.buffer == old(kcp.buffer)
+//@   ensures result == 0 || result == 0 - 1
+//
+//@ func KCP.WndSize
+//@   requires kcp.wf()
+//@   requires @C04 (sndwnd <= 0 || (kcp.snd_buf.rlen() <= sndwnd && sndwnd < 2147483648))
+//@   requires @C04 (rcvwnd <= 0 || (kcp.rcv_queue.rlen() <= rcvwnd && rcvwnd < 2147483648))
+//@   modifies kcp.snd_wnd, kcp.rcv_wnd
+//@   ensures kcp.wf() && result == 0
+//
+//@ func KCP.ack_push
+//@   modifies kcp.acklist, kcp.acklist[..]
+//@   ensures len(kcp.acklist) == old(len(kcp.acklist)) + 1
+//@   ensures kcp.acklist[len(kcp.acklist) - 1].sn == sn && kcp.acklist[len(kcp.acklist) - 1].ts == ts
+//@   ensures forall j int :: 0 <= j && j < old(len(kcp.acklist)) ==> kcp.acklist[j] == old(kcp.acklist[j])
+//@   ensures ref(kcp.acklist) == old(ref(kcp.acklist)) || fresh(kcp.acklist)
+//
+//@ func KCP.PeekSize
+//@   requires kcp.wfR()
+//@   modifies nothing
+//@   ensures result >= 0 - 1
+//@   loop 1 invariant length >= 0
+//
+// Field-wise relations between two versions of a segment.
+//@ pred segKeepId(a segment, b segment) = a.conv == b.conv && a.cmd == b.cmd && a.frg == b.frg && a.sn == b.sn
+//@ pred segButFastack(a segment, b segment) = segKeepId(a, b) && a.wnd == b.wnd && a.ts == b.ts && a.una == b.una && a.rto == b.rto
+//@      && a.xmit == b.xmit && a.resendts == b.resendts && a.acked == b.acked && a.data == b.data
+//@ pred segButData(a segment, b segment) = segKeepId(a, b) && a.wnd == b.wnd && a.ts == b.ts && a.una == b.una && a.rto == b.rto
+//@      && a.xmit == b.xmit && a.resendts == b.resendts && a.fastack == b.fastack
+//@ pred segButXmit(a segment, b segment) = segKeepId(a, b) && a.acked == b.acked && a.data == b.data
+//
+//@ func KCP.parse_una
+//@   requires kcp.wfR() && kcp.wfSb()
+//@   modifies all(kcp.snd_buf), kcp.snd_buf.elements[..]
+//@   ensures kcp.wfR() && kcp.wfSb()
+//@   ensures 0 <= result && result <= old(kcp.snd_buf.rlen()) && kcp.snd_buf.rlen() == old(kcp.snd_buf.rlen()) - result
+//@   ensures forall i int :: 0 <= i && i < kcp.snd_buf.rlen() ==> kcp.snd_buf.at(i) == old(kcp.snd_buf.at(i + result))
+//@   ensures forall i int :: 0 <= i && i < result ==> itimediff(una, old(kcp.snd_buf.at(i).sn)) > 0
+//@   ensures result < old(kcp.snd_buf.rlen()) ==> itimediff(una, old(kcp.snd_buf.at(result).sn)) <= 0
+//@   loop 1 invariant count == _i && kcp.snd_buf.clean()
+//@   loop 1 invariant forall j int :: 0 <= j && j < _i ==> itimediff(una, old(kcp.snd_buf.at(j).sn)) > 0
+//@   loop 1 invariant forall j int :: _i <= j && j < _n ==> kcp.snd_buf.at(j) == old(kcp.snd_buf.at(j))
+//
+//@ func KCP.parse_ack
+//@   requires kcp.wfR() && kcp.wfSb()
+//@   modifies kcp.snd_buf.elements[..]
+//@   ensures kcp.wfR() && kcp.wfSb() && kcp.snd_buf.rlen() == old(kcp.snd_buf.rlen())
+//@   ensures forall i int :: 0 <= i && i < kcp.snd_buf.rlen() ==> segButData(kcp.snd_buf.at(i), old(kcp.snd_buf.at(i)))
+//@   ensures forall i int :: 0 <= i && i < kcp.snd_buf.rlen() ==> kcp.snd_buf.at(i) == old(kcp.snd_buf.at(i))
+//@        || (kcp.snd_buf.at(i).acked == 1 && kcp.snd_buf.at(i).data == nil && old(kcp.snd_buf.at(i).sn) == sn)
+//@   loop 1 invariant kcp.snd_buf.clean()
+//@   loop 1 invariant forall j int :: 0 <= j && j < _n ==> kcp.snd_buf.at(j) == old(kcp.snd_buf.at(j))
+//
+//@ func KCP.parse_fastack
+//@   requires kcp.wfR() && kcp.wfSb()
+//@   modifies kcp.snd_buf.elements[..]
+//@   ensures kcp.wfR() && kcp.wfSb() && kcp.snd_buf.rlen() == old(kcp.snd_buf.rlen())
+//@   ensures result == 0 || result == 1
+//@   ensures forall i int :: 0 <= i && i < kcp.snd_buf.rlen() ==> segButFastack(kcp.snd_buf.at(i), old(kcp.snd_buf.at(i)))
+//@   loop 1 invariant kcp.snd_buf.clean() && (shouldFastAck == 0 || shouldFastAck == 1)
+//@   loop 1 invariant forall j int :: 0 <= j && j < _n ==> segButFastack(kcp.snd_buf.at(j), old(kcp.snd_buf.at(j)))
+//
+// segmentHeap: the concrete container under container/heap.
+//@ func segmentHeap.Len pure
+//@   ensures result == len(h.segments)
+//@ func segmentHeap.Has pure
+//@   ensures result == in(h.marks, sn)
+//@ func segmentHeap.Less pure
+//@   requires 0 <= i && i < len(h.segments) && 0 <= j && j < len(h.segments)
+//@   ensures result == (itimediff(h.segments[j].sn, h.segments[i].sn) > 0)
+//@ func segmentHeap.Swap
+//@   requires 0 <= i && i < len(h.segments) && 0 <= j && j < len(h.segments)
+//@   modifies h.segments[..]
+//@   ensures h.segments[i] == old(h.segments[j]) && h.segments[j] == old(h.segments[i])
+//@   ensures forall k int :: k != i && k != j ==> h.segments[k] == old(h.segments[k])
+//@ func segmentHeap.Push
+//@   requires typeis(x, segment) && h.marks != nil
+//@   modifies all(h), h.segments[..], mapof(h.marks)
+//@   ensures len(h.segments) == old(len(h.segments)) + 1 && h.marks == old(h.marks)
+//@   ensures h.segments[len(h.segments) - 1] == unboxval(x, segment)
+//@   ensures ref(h.segments) == old(ref(h.segments)) || fresh(h.segments)
+//@   ensures forall k int :: 0 <= k && k < old(len(h.segments)) ==> h.segments[k] == old(h.segments[k])
+//@   ensures forall s uint32 :: in(h.marks, s) == (old(in(h.marks, s)) || s == unboxval(x, segment).sn)
+//@ func segmentHeap.Pop
+//@   requires len(h.segments) > 0 && h.marks != nil
+//@   modifies all(h), h.segments[..], mapof(h.marks)
+//@   ensures typeis(result, segment) && unboxval(result, segment) == old(h.segments[len(h.segments) - 1])
+//@   ensures len(h.segments) == old(len(h.segments)) - 1 && h.marks == old(h.marks) && ref(h.segments) == old(ref(h.segments))
+//@   ensures forall k int :: 0 <= k && k < len(h.segments) ==> h.segments[k] == old(h.segments[k])
+//@   ensures forall s uint32 :: in(h.marks, s) == (old(in(h.marks, s)) && s != unboxval(result, segment).sn)
+//
+// INV-H: out-of-order segments. marks is the set of buffered sequence numbers, all inside the
+// receive window; one slice entry per mark (so occupancy <= rcv_wnd by counting).
+//@ pred (kcp *KCP) wfH() = len(kcp.rcv_buf.segments) == len(kcp.rcv_buf.marks)
+//@      && forall s uint32 :: in(kcp.rcv_buf.marks, s) ==> 0 <= itimediff(s, kcp.rcv_nxt) && itimediff(s, kcp.rcv_nxt) < kcp.rcv_wnd
+//
+//@ func KCP.parse_data
+//@   requires kcp.wfR() && kcp.wfW() && kcp.wfH() && len(newseg.data) <= 1500
+//@   modifies kcp.rcv_nxt, all(kcp.rcv_queue), kcp.rcv_queue.elements[..], all(kcp.rcv_buf), kcp.rcv_buf.segments[..], mapof(kcp.rcv_buf.marks)
+//@   ensures @C04 kcp.wfR() && kcp.wfW() && kcp.wfH()
+//@   ensures kcp.snd_wnd == old(kcp.snd_wnd) && kcp.rcv_wnd == old(kcp.rcv_wnd)
+//@   loop 1 invariant kcp.wfR() && kcp.wfW() && kcp.wfH() && kcp.rcv_queue.sameOrFresh() && kcp.rcv_buf.sameOrFresh()
+//
+//@ func KCP.Send
+//@   requires kcp.wfR() && kcp.wfM() && kcp.wfSq()
+//@   modifies all(kcp.snd_queue), kcp.snd_queue.elements[..], kcp.snd_queue.at(kcp.snd_queue.rlen() - 1).data[..]
+//@   ensures kcp.wfR() && kcp.wfSq()
+//@   ensures result == 0 || result == 0 - 1 || result == 0 - 2
+//@   loop 2 invariant 0 <= i && kcp.wfR() && kcp.wfSq() && kcp.snd_queue.sameOrFresh()
